@@ -92,9 +92,112 @@ pub fn run() -> i32 {
         }
     }
     println!("selftest: {} values, {} subtype pairs, {} programs ({} not accepted), {} model inconsistencies", n, pairs, progs.len(), rejected, bad);
+    // (the reference decoder recurses on the value: deep messages of the suite need a big stack)
+    bad += std::thread::Builder::new().stack_size(1 << 30).spawn(spec_suite).unwrap().join().unwrap_or(1);
     if bad > 0 {
         2
     } else {
         0
     }
+}
+
+
+/// The reference decoder (R2) and coercion (R4) against the specification's own test data
+/// (`/repo/test/*.test.did`): every binary assertion is decided by the models alone and must come
+/// out as the suite says. Text inputs are read by the real parser (they only supply the expected
+/// value of `==` / `!=` assertions). Returns the number of disagreements.
+fn spec_suite() -> u64 {
+    use super::common::{model_decode_at, ModelOutcome};
+    use candid_parser::test::{Input, Test};
+    let repo = std::env::var("CANDID_REPO").unwrap_or_else(|_| "/repo".to_string());
+    let lim = wire::Limits::default();
+    let (mut agree, mut disagree, mut no_verdict, mut skipped) = (0u64, 0u64, 0u64, 0u64);
+    let mut files = 0;
+    let Ok(rd) = std::fs::read_dir(format!("{repo}/test")) else {
+        println!("selftest: spec suite not found under {repo}/test (skipped)");
+        return 0;
+    };
+    let mut paths: Vec<_> = rd.filter_map(|e| e.ok()).map(|e| e.path()).filter(|p| p.to_string_lossy().ends_with(".test.did")).collect();
+    paths.sort();
+    for path in paths {
+        let Ok(src) = std::fs::read_to_string(&path) else { continue };
+        let Ok(test) = src.parse::<Test>() else {
+            eprintln!("selftest: spec suite file {} does not parse", path.display());
+            continue;
+        };
+        files += 1;
+        let mut te = candid::TypeEnv::new();
+        let prog = candid_parser::IDLProg { decs: test.defs, actor: None };
+        if candid_parser::check_prog(&mut te, &prog).is_err() {
+            eprintln!("selftest: definitions of {} do not check", path.display());
+            continue;
+        }
+        let Ok(menv) = bridge::from_real_env(&te) else { continue };
+        for a in &test.asserts {
+            let rtys: Result<Vec<candid::types::Type>, _> = a.typ.iter().map(|t| candid_parser::typing::ast_to_type(&te, &t.typ)).collect();
+            let Ok(rtys) = rtys else {
+                skipped += 1;
+                continue;
+            };
+            let mut knots = Env::new();
+            let mtys: Result<Vec<refmodel::ty::Ty>, String> = rtys.iter().map(|t| bridge::from_real_ty(t, &mut knots)).collect();
+            let Ok(mtys) = mtys else {
+                skipped += 1;
+                continue;
+            };
+            let env = menv.merge_disjoint(&knots);
+            // Some(Ok(values)) / Some(Err) = verdict of the models; None = no verdict (text input that
+            // does not parse, or outside the models' budget)
+            let eval = |i: &Input| -> Option<Result<Vec<val::Val>, String>> {
+                match i {
+                    Input::Blob(b) => match model_decode_at(b, &env, &mtys, &lim).0 {
+                        ModelOutcome::Ok(vs) => Some(Ok(vs)),
+                        ModelOutcome::Malformed(e) => Some(Err(e)),
+                        ModelOutcome::NoCoercion => Some(Err("no coercion".into())),
+                        ModelOutcome::OutOfScope(_) => None,
+                    },
+                    Input::Text(_) => match i.parse(&te, &rtys) {
+                        Ok(args) => bridge::from_idl_args(&args).ok().map(Ok),
+                        Err(_) => None,
+                    },
+                }
+            };
+            if std::env::var("SELFTEST_TRACE").is_ok() {
+                eprintln!("trace: {} {:?}", path.display(), a.desc());
+            }
+            let blob_involved = matches!(a.left, Input::Blob(_)) || matches!(a.right, Some(Input::Blob(_)));
+            if !blob_involved {
+                skipped += 1;
+                continue;
+            }
+            let l = eval(&a.left);
+            let verdict: Option<bool> = match &a.right {
+                None => l.map(|r| r.is_ok()),
+                Some(r) => match (l, eval(r)) {
+                    // `==` / `!=` : both decode, values equal / different
+                    (Some(Ok(x)), Some(Ok(y))) => Some(if a.pass { x == y || x.iter().zip(&y).all(|(p, q)| val::sim(p, q)) && x.len() == y.len() } else { x == y }).map(|eq| if a.pass { eq } else { !eq }),
+                    (Some(Err(_)), _) | (_, Some(Err(_))) => Some(false),
+                    _ => None,
+                },
+            };
+            let expected = if a.right.is_some() { true } else { a.pass };
+            match verdict {
+                None => no_verdict += 1,
+                Some(v) if v == expected => agree += 1,
+                Some(v) => {
+                    disagree += 1;
+                    eprintln!(
+                        "selftest: spec suite {}: assertion {:?} expects {} but the models say {} (types {})",
+                        path.file_name().unwrap().to_string_lossy(),
+                        a.desc(),
+                        expected,
+                        v,
+                        mtys.iter().map(|t| t.to_string()).collect::<Vec<_>>().join(", ")
+                    );
+                }
+            }
+        }
+    }
+    println!("selftest: spec suite: {files} files, {agree} binary assertions decided by R2/R4 as the suite says, {disagree} disagreements, {no_verdict} without verdict (budget / text side unparsable), {skipped} text-only assertions skipped");
+    disagree
 }
